@@ -10,6 +10,7 @@ import (
 	"context"
 	"encoding/json"
 	"fmt"
+	"io"
 	"os"
 	"strconv"
 	"strings"
@@ -60,6 +61,13 @@ type scenario struct {
 	// raceLoss: (hook) the link dialer is held right after it obtained its dial
 	// result, the link is lost meanwhile, then the dialer is let go
 	raceLoss bool
+	// linkedY: before X is requested, a request for Y at A is made and satisfied
+	// (seq starts with Y serving A); X is requested while that link is up
+	linkedY bool
+	// overlap: peer constraint ("any" | "Y" | "X") of a FIRST dial of A that the
+	// network holds in flight while the request for X is made; the network lets
+	// go once the request for X has joined it; seq[0] says who answers then
+	overlap string
 }
 
 func (s scenario) String() string {
@@ -72,6 +80,12 @@ func (s scenario) String() string {
 	}
 	if s.raceLoss {
 		c += "+linkLostBeforeDialerRecordedIt"
+	}
+	if s.linkedY {
+		c += "+requestedWhileLinkedToY"
+	}
+	if s.overlap != "" {
+		c += "+joinsInflightDialFor:" + s.overlap
 	}
 	return fmt.Sprintf("%s/%s/%s%s", s.tpt, s.m, s.seq, c)
 }
@@ -142,6 +156,10 @@ type fabric interface {
 	Serve(who byte)
 	Sent() int64
 	Dropped() int64
+	// Hold keeps dial traffic towards A back (neither delivered nor refused) until Release; Held counts it.
+	Hold()
+	Held() int64
+	Release()
 }
 
 type peerEnd struct {
@@ -166,6 +184,9 @@ func (f *dgramFabric) Serve(who byte) {
 }
 func (f *dgramFabric) Sent() int64    { return f.n.Sent(addrA) }
 func (f *dgramFabric) Dropped() int64 { return f.n.Dropped(addrA) }
+func (f *dgramFabric) Hold()          { f.n.Hold(addrA) }
+func (f *dgramFabric) Held() int64    { return f.n.Held(addrA) }
+func (f *dgramFabric) Release()       { f.n.Release(addrA) }
 
 type streamFabric struct {
 	n    *g5net.StreamNet
@@ -184,6 +205,9 @@ func (f *streamFabric) Serve(who byte) {
 }
 func (f *streamFabric) Sent() int64    { return f.n.Dials() }
 func (f *streamFabric) Dropped() int64 { return f.n.Refused() }
+func (f *streamFabric) Hold()          { f.n.Hold(addrA) }
+func (f *streamFabric) Held() int64    { return f.n.Held(addrA) }
+func (f *streamFabric) Release()       { f.n.Release(addrA) }
 
 // gate holds the link dialer of one controller at the hook event
 // "tc.linkdialer.result" (dial result obtained, not yet recorded).
@@ -239,12 +263,40 @@ type run struct {
 	relDir   func()
 	history  []string
 	lastLink link.Link // link of the latest success value (DialPeerAddr / DialTptAddr)
+	t0       time.Time // diagnostics only
+	dlog     *dialLog  // failed dial attempts of the (X, A) dialer as logged by the code under test
+}
+
+// dialLog is a logrus hook counting the "dialer errored" entries of the dialer
+// for one peer: an observation that a dial attempt was made and failed (used
+// only to decide when a phase has been exercised, never for a verdict).
+type dialLog struct {
+	peer          string
+	failed, fatal atomic.Int64
+}
+
+func (d *dialLog) Levels() []logrus.Level { return []logrus.Level{logrus.WarnLevel} }
+
+func (d *dialLog) Fire(e *logrus.Entry) error {
+	if p, _ := e.Data["dial-peer-id"].(string); p != d.peer {
+		return nil
+	}
+	switch e.Message {
+	case "dialer errored":
+		d.failed.Add(1)
+	case "dialer errored fatally":
+		d.fatal.Add(1)
+	}
+	return nil
 }
 
 func (u *run) logf(f string, a ...any) {
 	u.mu.Lock()
 	u.history = append(u.history, fmt.Sprintf(f, a...))
 	u.mu.Unlock()
+	if os.Getenv("VERIF_C05_HIST") != "" { // diagnostics only
+		fmt.Printf("HIST %s %8.3f %s\n", u.label, time.Since(u.t0).Seconds(), fmt.Sprintf(f, a...))
+	}
 }
 
 func (u *run) witness(extra map[string]any) map[string]any {
@@ -499,8 +551,9 @@ func (u *run) setServer(p byte) {
 	if p == 'X' {
 		u.everX = true
 	}
-	u.history = append(u.history, fmt.Sprintf("phase %d: address A now served by %c", u.phase, p))
+	ph := u.phase
 	u.mu.Unlock()
+	u.logf("phase %d: address A now served by %c", ph, p)
 	u.fab.Serve(p)
 }
 
@@ -588,6 +641,188 @@ func (u *run) executeRaceLoss(ctx context.Context) (complete bool) {
 	return true
 }
 
+// rawDial calls DialPeer of the controller's transport directly (the only way to dial without a peer constraint).
+func (u *run) rawDial(ctx context.Context, p peer.ID) (link.Link, error) {
+	tpt, err := u.l.Ctrl.GetTransport(ctx)
+	if err != nil {
+		return nil, err
+	}
+	td, ok := tpt.(dialer.TransportDialer)
+	if !ok {
+		return nil, dialer.ErrNotTransportDialer
+	}
+	lnk, _, err := td.DialPeer(ctx, p, addrA)
+	return lnk, err
+}
+
+// prelude runs phase 0 of the linkedY / overlap scenarios: another dial of A
+// (for Y, for X, or unconstrained) comes FIRST; the request for X is made while
+// that dial is still in flight (overlap; the harness' network holds the dial
+// traffic and lets go once the request for X is parked behind it) resp. once
+// its link to Y is up (linkedY). done = the observation point of phase 0 was
+// reached here (a legitimate link to Y holds the address and the dialer for X
+// failed against it); otherwise the ordinary phase logic goes on.
+func (u *run) prelude(ctx context.Context) (done, ok bool) {
+	r := u.r
+	p := u.sc.seq[0]
+	X, Y := u.x.ID.ID, u.y.ID.ID
+	truth := X
+	if p == 'Y' {
+		truth = Y
+	}
+	first := u.sc.overlap
+	if u.sc.linkedY {
+		first = "Y"
+	}
+	if u.sc.overlap != "" {
+		u.fab.Hold()
+		u.logf("the network holds dial traffic towards A")
+	}
+	defer u.fab.Release()
+	u.setServer(p)
+	type res struct {
+		lnk link.Link
+		err error
+	}
+	fctx, fcancel := context.WithCancel(ctx)
+	defer fcancel()
+	firstCh := make(chan res, 1)
+	u.logf("first request: dial of A requiring %q", first)
+	r.Count("first_requests_"+first, 1)
+	g5net.WithReqLabel(ctx, "first", func(lctx context.Context) {
+		go func() {
+			var rs res
+			switch first {
+			case "Y":
+				rs.lnk, rs.err = u.l.Ctrl.DialPeerAddr(fctx, Y, u.opts)
+			case "X":
+				rs.lnk, rs.err = u.rawDial(fctx, X)
+			default:
+				rs.lnk, rs.err = u.rawDial(fctx, "")
+			}
+			firstCh <- rs
+		}()
+	})
+	var fr *res
+	pollFirst := func() bool {
+		if fr != nil {
+			return true
+		}
+		select {
+		case v := <-firstCh:
+			fr = &v
+			return true
+		default:
+			return false
+		}
+	}
+	if u.sc.overlap != "" {
+		// in flight: dial traffic towards A is being held (the per-address dialer is registered before it sends anything)
+		if ok, _ := wait(func() bool { return pollFirst() || u.fab.Held() >= 1 }, nil); !ok || fr != nil {
+			r.Inconclusive(u.sc.String() + ": the first dial never got in flight")
+			return false, false
+		}
+		u.logf("the first dial is in flight; now the request for X is made")
+		u.request(ctx, true)
+		// joined: two callers wait for the result of the per-address dialer.
+		// Goroutine profiles stop the world: look at most every 40 ms.
+		looks, joined := 0, false
+		var lastLook time.Time
+		if ok, _ := wait(func() bool {
+			if pollFirst() {
+				return true // the held dial gave up (handshake time-out under load): nothing left to join
+			}
+			if time.Since(lastLook) < 40*time.Millisecond {
+				return false
+			}
+			looks++
+			tl := time.Now()
+			n := g5net.GoroutineCount(u.label, "transport/common/quic.(*Transport).DialPeer", ".Await")
+			lastLook = time.Now()
+			if os.Getenv("VERIF_C05_HIST") != "" { // diagnostics only
+				fmt.Printf("HIST %s look %d took %.3fs n=%d\n", u.label, looks, lastLook.Sub(tl).Seconds(), n)
+			}
+			if n >= 2 {
+				joined = true
+				return true
+			}
+			// a dialer for X that does not wait (it fails at once and backs off): go on after a bounded number of looks
+			return looks >= 25 && u.dlog.failed.Load()+u.dlog.fatal.Load() > 0
+		}, nil); !ok {
+			r.Inconclusive(u.sc.String() + ": the request for X never reached the in-flight dial")
+			return false, false
+		}
+		if joined {
+			u.logf("the dial for X is parked behind the in-flight dial; the network lets go, A is answered by %c", p)
+			r.Count("requests_for_X_parked_behind_inflight_dial", 1)
+		} else {
+			u.logf("the dial for X was not seen waiting for the in-flight dial; the network lets go, A is answered by %c", p)
+			r.Count("requests_for_X_not_seen_waiting_for_inflight_dial", 1)
+		}
+		u.fab.Release()
+	}
+	// result of the first request
+	if first == "Y" && p != 'Y' {
+		// cannot be satisfied while X serves A: withdraw it so that only the request for X keeps dialing
+		fcancel()
+	}
+	if ok, _ := wait(pollFirst, nil); !ok {
+		r.Inconclusive(u.sc.String() + ": the first request did not conclude")
+		return false, false
+	}
+	if fr.err != nil {
+		u.logf("first request failed: %v", fr.err)
+		r.Count("first_requests_failed", 1)
+		if u.sc.linkedY {
+			r.Inconclusive(u.sc.String() + ": the request for Y was not satisfied although Y serves A: " + fr.err.Error())
+			return false, false
+		}
+		return false, true
+	}
+	if first == "X" {
+		u.onValue("Transport.DialPeer", fr.lnk)
+	}
+	if fr.lnk == nil {
+		u.logf("first request reported success without a link")
+		return false, true
+	}
+	got := fr.lnk.GetRemotePeer()
+	u.logf("first request succeeded: link names %s", got.String())
+	r.Count("first_requests_succeeded", 1)
+	if got != truth || (first == "Y" && got != Y) {
+		r.Violation("wrong-peer:first-request-"+first+":"+u.sc.tpt,
+			fmt.Sprintf("a dial of A requiring %q, answered by %c, reported success with a link naming %s (scenario %s)", first, p, got.String(), u.sc), u.witness(nil))
+		return false, true
+	}
+	if p != 'Y' {
+		return false, true
+	}
+	// a legitimate link to Y now holds address A
+	if ok, _ := wait(func() bool { return u.linksTo(Y) > 0 }, nil); !ok {
+		r.Inconclusive(u.sc.String() + ": the controller never registered the link to Y")
+		return false, false
+	}
+	c0 := u.dlog.failed.Load()
+	if u.sc.linkedY {
+		u.logf("link to Y is up; now the request for X is made")
+		u.request(ctx, true)
+	}
+	// observation point: the dialer for X failed (at least twice: the first failure may stem from the joined dial) while Y held the address, or gave up
+	polls := 0
+	if ok, _ := wait(func() bool {
+		polls++
+		return u.dlog.failed.Load() >= c0+2 || u.dlog.fatal.Load() > 0 || u.valueCount() > 0 || polls >= 2000
+	}, nil); !ok {
+		r.Inconclusive(u.sc.String() + ": no dial attempt for X observed while Y held the address")
+		return false, false
+	}
+	u.logf("the dialer for X failed %d times while Y held the address (gave up for good: %v)", u.dlog.failed.Load()-c0, u.dlog.fatal.Load() > 0)
+	r.Count("dial_attempts_for_X_failed_while_linked_to_Y", int(u.dlog.failed.Load()-c0))
+	r.Count("phases_served_by_Y", 1)
+	r.Count("requests_for_X_made_while_address_linked_to_Y", 1)
+	return true, true
+}
+
 // execute runs the scenario; returns whether every phase reached its observation point.
 func (u *run) execute(ctx context.Context) (complete bool) {
 	if u.sc.raceLoss {
@@ -597,7 +832,17 @@ func (u *run) execute(ctx context.Context) (complete bool) {
 	X := u.x.ID.ID
 	for i := 0; i < len(u.sc.seq); i++ {
 		p := u.sc.seq[i]
-		u.setServer(p)
+		if i == 0 && (u.sc.linkedY || u.sc.overlap != "") {
+			done, ok := u.prelude(ctx)
+			if !ok {
+				return false
+			}
+			if done {
+				continue
+			}
+		} else {
+			u.setServer(p)
+		}
 		r.Count("phases_served_by_"+string(p), 1)
 		if p != 'X' {
 			// settle: the link to X made in an earlier phase has to die first (idle time-out);
@@ -755,13 +1000,17 @@ func runScenario(r *vf.Run, sc scenario, pool []*keys.Identity) {
 	label := sc.String()
 	r.Begin(label)
 	g5net.WithLabel(ctx, label, func(ctx context.Context) {
-		le := g5net.QuietLogger()
+		dlog := &dialLog{peer: pool[1].ID.String()}
+		lg := logrus.New()
+		lg.SetOutput(io.Discard)
+		lg.SetLevel(logrus.WarnLevel)
 		if os.Getenv("VERIF_C05_LOG") != "" {
-			lg := logrus.New()
+			lg.SetOutput(os.Stderr)
 			lg.SetLevel(logrus.DebugLevel)
-			le = logrus.NewEntry(lg).WithField("case", label)
 		}
-		u := &run{r: r, sc: sc, label: label, opts: &dialer.DialerOpts{Address: addrA, Backoff: backoffOpts()}}
+		lg.AddHook(dlog)
+		le := logrus.NewEntry(lg).WithField("case", label)
+		u := &run{r: r, sc: sc, label: label, t0: t0, dlog: dlog, opts: &dialer.DialerOpts{Address: addrA, Backoff: backoffOpts()}}
 		var spm map[string]*dialer.DialerOpts
 		if sc.m == mEstablishLink {
 			spm = map[string]*dialer.DialerOpts{pool[1].ID.String(): u.opts}
@@ -831,7 +1080,7 @@ func runScenario(r *vf.Run, sc scenario, pool []*keys.Identity) {
 func TestCheck(t *testing.T) {
 	r := vf.Start(t, "C05", vf.FaultEnumeration)
 	defer r.Finish()
-	r.SetRule("scenario = (request kind in {Controller.DialPeerAddr, DialTptAddr directive, EstablishLinkWithPeer with a static peer map}) x (service sequence of address A over {X, impostor Y, nobody}, all sequences of length <= 3 without equal neighbours; thorough: plus PRNG sequences up to length 6) [+ variants with a competing request for Y at the same address, + variants that repeat the request while the link to X is still up, + (hook tc.linkdialer.result) the link is lost while the link dialer is held between obtaining and recording its result]. Real transport controller + real pconn/quic transports over an in-memory datagram switch, resp. real conn (stream) transports over in-memory pipes, whose service table the harness rebinds between phases. A phase is left only when its observation point was reached (impostor completed handshakes / datagrams to A were dropped / link to X exists and the request returned); a scenario is non-trivial when all its phases reached it. Oracle (ground truth = the harness' service table): every success value of the request names X and appears only after X served A; while X serves A and a request is outstanding a link to X is eventually there -- refuted by a stuck state (no link to X, no goroutine in any dial routine on 5 consecutive observation points after the traffic counter towards A has been silent for 10), a watchdog expiry is only inconclusive.")
+	r.SetRule("scenario = (request kind in {Controller.DialPeerAddr, DialTptAddr directive, EstablishLinkWithPeer with a static peer map}) x (service sequence of address A over {X, impostor Y, nobody}, all sequences of length <= 3 without equal neighbours; thorough: plus PRNG sequences up to length 6) [+ variants in which a request for Y at A is satisfied first and X is requested while that link holds the address, + variants in which a first dial of A (unconstrained / requiring Y / requiring X, made through the controller resp. the transport's DialPeer) is held in flight by the harness' network while the request for X is made and released once the dial for X is parked behind it (goroutine state) with X resp. Y answering, + variants with a competing request for Y at the same address, + variants that repeat the request while the link to X is still up, + (hook tc.linkdialer.result) the link is lost while the link dialer is held between obtaining and recording its result]. Real transport controller + real pconn/quic transports over an in-memory datagram switch, resp. real conn (stream) transports over in-memory pipes, whose service table the harness rebinds between phases. A phase is left only when its observation point was reached (impostor completed handshakes / datagrams to A were dropped / link to X exists and the request returned); a scenario is non-trivial when all its phases reached it. Oracle (ground truth = the harness' service table): every success value of the request names X and appears only after X served A; while X serves A and a request is outstanding a link to X is eventually there -- refuted by a stuck state (no link to X, no goroutine in any dial routine on 5 consecutive observation points after the traffic counter towards A has been silent for 10), a watchdog expiry is only inconclusive.")
 	r.Assume("the link's reported remote peer is authentic (that is C03)")
 	r.Assume("goroutines of a scenario are found by an inherited pprof label; dial goroutines without label make the stuck detector abstain")
 
@@ -870,6 +1119,31 @@ func TestCheck(t *testing.T) {
 	for _, tp := range []string{"pconn", "conn"} {
 		scs = append(scs, scenario{tpt: tp, m: mEstablishLink, seq: "X", raceLoss: true})
 	}
+	// the address is first legitimately linked to Y, X is requested while that link is up, then the service changes
+	// a first dial of A (unconstrained / for Y / for X) is held in flight while X is requested (the request joins it)
+	for _, tp := range []string{"pconn", "conn"} {
+		reduced := tp == "conn" && r.Quick()
+		ly, ov := []string{"YX", "YNX"}, []string{"X", "YX"}
+		if reduced {
+			ly = ly[:1]
+		}
+		if !r.Quick() {
+			ly, ov = append(ly, "YXYX", "YNYX"), append(ov, "YNX", "XYX")
+		}
+		for _, m := range []method{mDialPeerAddr, mDialTptAddr, mEstablishLink} {
+			for _, s := range ly {
+				scs = append(scs, scenario{tpt: tp, m: m, seq: s, linkedY: true})
+			}
+			for _, f := range []string{"any", "Y", "X"} {
+				for _, s := range ov {
+					if r.Quick() && m != mDialPeerAddr && (f == "X" || s != "YX" || (reduced && (m != mEstablishLink || f != "any"))) {
+						continue
+					}
+					scs = append(scs, scenario{tpt: tp, m: m, seq: s, overlap: f})
+				}
+			}
+		}
+	}
 	if !r.Quick() {
 		seen := map[string]bool{}
 		for len(seen) < 250 {
@@ -886,7 +1160,14 @@ func TestCheck(t *testing.T) {
 				continue
 			}
 			seen[string(b)] = true
-			scs = append(scs, scenario{tpt: []string{"pconn", "pconn", "conn"}[rng.IntN(3)], m: method(rng.IntN(3)), seq: string(b), concurrent: rng.IntN(4) == 0, eager: rng.IntN(4) == 0})
+			sc := scenario{tpt: []string{"pconn", "pconn", "conn"}[rng.IntN(3)], m: method(rng.IntN(3)), seq: string(b), concurrent: rng.IntN(4) == 0, eager: rng.IntN(4) == 0}
+			switch k := rng.IntN(6); {
+			case k == 0 && b[0] == 'Y' && !sc.concurrent:
+				sc.linkedY = true
+			case k == 1 && b[0] != 'N' && !sc.concurrent:
+				sc.overlap = []string{"any", "Y", "X"}[rng.IntN(3)]
+			}
+			scs = append(scs, sc)
 		}
 	}
 	// development knobs (not used by bin/check): run only matching scenarios, repeatedly
